@@ -12,7 +12,7 @@ therefore a parameter.  Numbers are `Num` (= `*big.Float`); `normalNum` is the
 representation invariant of the model's numbers (odd mantissa), which every
 number has (`normal_mk`) — it restricts representations, not numbers.
 -/
-import CtyModel.Lemmas.GoctyDecode
+import CtyModel.Lemmas.GoctyRT
 namespace CtyModel
 namespace C18
 open Gocty
@@ -137,6 +137,85 @@ theorem no_panic_unmarked (v : Value) (T : GoTy) (h : v.containsMarked = false) 
 /-- the guard is the one the code has: a marked value does reach the panicking accessors -/
 theorem marked_can_panic : fromCty ⟨.bool, .marked ["m"] (.b true)⟩ .bool = .panic "marked" := by rfl
 
+/-! ### "Converting a Go value … to the value type implied by its Go type — or arrays and big numbers to the corresponding list and number types — and back reproduces the Go value exactly, with nil pointers, slices and maps corresponding to null"
+
+`hasTy g T`: `g` is a value of Go type `T` (what the Go type checker guarantees;
+integers within their width, floats being float32/float64 values, NaN excluded as
+in the property).  `bridgeType` is `ImpliedType` extended to arrays (lists) and
+big numbers (numbers).  `rtSide norm g T` (decidable) says:
+* every string and map key in `g` is NFC (`norm s = s`);
+* a nil pointer occurs only where its pointee type is not itself a pointer, slice,
+  map, array or `cty.Value` (null cannot say at which level the nil was);
+* every struct field carries a distinct NFC `cty` tag;
+* no `cty.Value` below a slice, array or map (a cty list/map has one element type).
+The first two are exactly the two recorded known findings; see the counterexamples. -/
+
+/-- The unconditional round-trip statement (false of the code, see below). -/
+def RoundtripAll : Prop :=
+  ∀ (norm : String → String) (g : GoVal) (T : GoTy) (ty : Ty),
+    hasTy g T = true → bridgeType norm T = .ok ty →
+    ∃ v, toCty norm g ty = .ok v ∧ fromCty v T = .ok g
+
+/-- Round trip, for every Go type of the modelled family and every value of it —
+integers of every width, floats, strings, booleans, slices, arrays, string-keyed
+maps, tagged structs, pointers at any depth, big.Int, big.Float, embedded
+`cty.Value`s, nested arbitrarily — by induction on the Go value:
+`FromCtyValue(ToCtyValue(g, bridge type of T), new(T))` succeeds and stores `g`;
+nil slices, maps and pointers go through null (they are `GoVal` constructors
+of their own and come back as themselves). -/
+theorem roundtrip_partial (norm : String → String) (g : GoVal) (T : GoTy) (ty : Ty)
+    (hT : hasTy g T = true) (hs : rtSide norm g T = true) (hb : bridgeType norm T = .ok ty) :
+    ∃ v, toCty norm g ty = .ok v ∧ fromCty v T = .ok g := by
+  obtain ⟨v, h1, h2, _⟩ := rt norm g T ty hT hs hb
+  exact ⟨v, h1, h2⟩
+
+/-- the same through `ImpliedType` proper (no arrays, no big numbers at any depth) -/
+theorem roundtrip_implied (norm : String → String) (g : GoVal) (T : GoTy) (ty : Ty)
+    (hT : hasTy g T = true) (hs : rtSide norm g T = true) (hb : impliedType norm T = .ok ty) :
+    ∃ v, toCty norm g ty = .ok v ∧ fromCty v T = .ok g :=
+  roundtrip_partial norm g T ty hT hs (implied_bridge norm T ty hb)
+
+/-- and the value produced on the way has exactly the implied type whenever no
+`cty.Value` is embedded in the Go type (with one, the dynamic positions take the
+type of the embedded value) -/
+theorem toCty_has_implied_type (norm : String → String) (g : GoVal) (T : GoTy) (ty : Ty) (v : Value)
+    (hT : hasTy g T = true) (hs : rtSide norm g T = true) (hb : bridgeType norm T = .ok ty)
+    (hc : hasCval T = false) (hv : toCty norm g ty = .ok v) : v.ty = ty := by
+  obtain ⟨v', h1, _, h3⟩ := rt norm g T ty hT hs hb
+  have : v = v' := by
+    have := hv.symm.trans h1
+    cases this; rfl
+  rw [this]; exact h3 hc
+
+/-- known finding 1: a nil `*[]string` becomes null, and null decodes to a non-nil
+pointer to a nil slice — the nil comes back one level further in -/
+theorem roundtrip_nilptr_counterexample :
+    hasTy .nilPtr (.ptr (.slice .str)) = true ∧
+    bridgeType id (.ptr (.slice .str)) = .ok (.list .string) ∧
+    toCty id .nilPtr (.list .string) = .ok ⟨.list .string, .null⟩ ∧
+    fromCty ⟨.list .string, .null⟩ (.ptr (.slice .str)) = .ok (.ptr .nilSlice) :=
+  ⟨rfl, rfl, rfl, rfl⟩
+
+/-- a normaliser that maps the decomposed "e◌́" to the composed "é", as NFC does -/
+def nfcSample : String → String := fun s => if s = "e\u0301" then "\u00e9" else s
+
+/-- known finding 2: a string that is not NFC comes back normalised -/
+theorem roundtrip_nfc_counterexample :
+    hasTy (.str "e\u0301") .str = true ∧ bridgeType nfcSample .str = .ok .string ∧
+    toCty nfcSample (.str "e\u0301") .string = .ok ⟨.string, .s "\u00e9"⟩ ∧
+    fromCty ⟨.string, .s "\u00e9"⟩ .str = .ok (.str "\u00e9") :=
+  ⟨rfl, rfl, rfl, rfl⟩
+
+/-- hence the unconditional statement does not hold -/
+theorem roundtripAll_false : ¬ RoundtripAll := by
+  intro h
+  obtain ⟨v, h1, h2⟩ := h id .nilPtr (.ptr (.slice .str)) (.list .string) rfl rfl
+  obtain ⟨_, _, e1, e2⟩ := roundtrip_nilptr_counterexample
+  rw [e1] at h1
+  cases h1
+  rw [e2] at h2
+  cases h2
+
 /-! ### Non-vacuity -/
 example : normalNum (Num.ofInt 127) = true ∧ lo IntW.w8.bits true ≤ 127 ∧ (127 : Int) ≤ hi IntW.w8.bits true := by
   decide
@@ -146,6 +225,18 @@ example : fromCty ⟨.number, .n (Num.ofInt 128)⟩ (.int .w8 true) = .err "whol
 example : fromCty ⟨.number, .n (Num.mk false 3 (-1) 64)⟩ (.int .w8 false) = .err "whole number" := by rfl
 example : kindOK .string (.s "x") = true ∧ shapeOK .string (GoTy.ptr (.int .w8 true)).base = false := by decide
 example : Value.containsMarked ⟨.list .string, .seq [.s "a", .null]⟩ = false := by decide
+
+/-- a nested Go type and a value of it that meet every hypothesis of the round trip -/
+def sampleT : GoTy :=
+  .struct ["name", "l", "m", "p", "bi", "v"]
+    [.str, .slice (.int .w16 true), .map (.array 2 (.int .w8 false)), .ptr (.ptr (.struct ["a"] [.bool])), .bigInt, .cval]
+def sampleG : GoVal :=
+  .struct ["name", "l", "m", "p", "bi", "v"]
+    [.str "x", .slice [.int 1, .int (-32768)], .map ["k", "z"] [.arr [.int 0, .int 255], .arr [.int 1, .int 2]],
+     .ptr (.ptr (.struct ["a"] [.bool true])), .bigInt 18446744073709551616, .cval ⟨.string, .unk .unref⟩]
+example : hasTy sampleG sampleT = true ∧ rtSide id sampleG sampleT = true := by decide
+example : ∃ ty, bridgeType id sampleT = .ok ty := ⟨_, rfl⟩
+example : hasTy (.ptr .nilPtr) (.ptr (.ptr .str)) = true ∧ rtSide id (.ptr .nilPtr) (.ptr (.ptr .str)) = true := by decide
 
 end C18
 end CtyModel
